@@ -3,7 +3,7 @@ import AC.AllocX
 import AC.PeakLive
 /-! driver handlers for C05 and C17.
 
-`c05 <ir> <in> <out> <prefix> <x> <impl named ir|err|panic> <impl temporaries> <interp distinct>
+`c05 <ir> <names before allocation|-> <in> <out> <prefix> <x> <impl named ir|err|panic> <impl temporaries> <interp distinct>
      <interp aliased> <input-written-distinct 0/1> <pointer-canonical 0/1>`
 `c17 <ir> <impl number of temporaries|err>` -/
 namespace AC.Drv.K05
@@ -115,15 +115,21 @@ end AC.Drv.K05
 namespace AC.Drv
 open P.Alloc AC.AllocX AC.Drv.K05
 
+/-- (index, identifier) of every operand before allocation -/
+def occOf (ir : List Inst) (names : List (NInst String)) : List (Nat × String) :=
+  let un := fun (s : String) => if s == "?" then "" else s
+  (ir.zip names).flatMap fun (i, n) => (i.op.inputs.zip (n.op.inputs.map un)) ++ [(i.out, un n.out)]
+
 def handleC05 (f : List String) : Res :=
   match f with
-  | [irS, inN, outN, pre, xS, implS, tmpS, rdS, raS, iwS, pcS] =>
-    match pIR irS, pInt xS with
-    | some ir, some x =>
+  | [irS, preS, inN, outN, pre, xS, implS, tmpS, rdS, raS, iwS, pcS] =>
+    match pIR irS, pInt xS, pNamed preS with
+    | some ir, some x, some preN =>
       let cfg := strCfg inN outN pre
       let r : Res := {}
       -- model
-      let m := allocateX cfg ir
+      let occ := occOf ir preN
+      let m := allocateN cfg ir occ
       let (mNamed, mTemps) := match m with
         | .ok (p, t) => (showNamed p, showNames t)
         | .error _ => ("err", "-")
@@ -131,7 +137,7 @@ def handleC05 (f : List String) : Res :=
       let r := cmp "temporaries" mTemps tmpS r
       let mRun := fun (alias : Bool) => match m with
         | .ok (p, _) => match execX cfg alias p (initX cfg x) with
-          | .ok st => match st (cellX cfg alias outN) with
+          | .ok st => match getX st (cellX cfg alias outN) with
             | some v => toString v
             | none => "undef"
           | .error _ => "err"
@@ -141,9 +147,9 @@ def handleC05 (f : List String) : Res :=
       let r := cmp "pointer-canonical" (match m with | .ok _ => "1" | .error _ => "0") pcS r
       -- spec on the implementation's output (property applies to well-formed non-empty programs)
       let wf := AC.PeakLive.wfB ir && !ir.isEmpty
-      let namesOK := inN != outN
+      let namesOK := inN != outN && !nameConflict occ
       if !(wf && namesOK) then
-        { r with tag := s!"wf=0,empty={c05b ir.isEmpty}" }
+        { r with tag := s!"wf={c05b wf},empty={c05b ir.isEmpty},conflict={c05b (nameConflict occ)}" }
       else
         match pNamed implS with
         | none => specIf "allocation-succeeds" false r
@@ -164,7 +170,7 @@ def handleC05 (f : List String) : Res :=
           let dead := !AC.PeakLive.allUsedB ir
           let nt := ir.length ≥ 3 && (temps.length ≥ 2 || reuse)
           { r with nt := nt, tag := s!"wf=1,dead={c05b dead},reuseout={c05b reuse},temps={min temps.length 4}" }
-    | _, _ => bad "c05-parse"
+    | _, _, _ => bad "c05-parse"
   | _ => bad "c05-arity"
 
 def handleC17 (f : List String) : Res :=
